@@ -186,7 +186,11 @@ impl Format {
                     || (!cur_token.is_numeric() && (cur_item.sep_char_is(char))))
             {
                 // The sign of an hours offset that follows the separators of the previous token.
-                if cur_token == Token::OffsetHours && idx == prev_idx && (char == '+' || char == '-')
+                // (a `+` or `-` that is not followed by a digit is a separator of the previous token)
+                if cur_token == Token::OffsetHours
+                    && idx == prev_idx
+                    && (char == '+' || char == '-')
+                    && s.as_bytes().get(idx + 1).map_or(false, |b| b.is_ascii_digit())
                 {
                     if char == '-' {
                         offset_sign = -1;
